@@ -820,6 +820,12 @@ def classify_inv(ctx, f, t, state, acc):
         ls = K.live_set(lhs, f)
         if ls is not None and ls[1] == state and ls[0] == acc and letter_index0(rhs) is not None:
             return ('rank', letter_index0(rhs))
+        if rhs[0] == 'sub' and rhs[1][0] == 'sub' and rhs[1][1][0] == 'v' and rhs[1][1][1] == 'shuffles' and \
+                letter_index0(rhs[2]) is None:
+            inner_ = classify_inv(ctx, f, rhs[2], state, acc)
+            if inner_ is not None and inner_[0] == 'rank':
+                return ('dev', 'the table entry of the walked arc is looked up at the RANK of the letter among the live arcs, not at its '
+                               'column in ACGT: the two differ whenever the live arcs are not a prefix of ACGT')
         if rhs[0] == 'sub' and letter_index0(rhs[2]) is not None:
             row = rhs[1]
             if row[0] == 'sub' and row[1][0] == 'v' and row[1][1] == 'shuffles' and row[2] == state:
